@@ -12,6 +12,9 @@ for f in sorted(glob.glob('/verif/.build/%s/*/jobs/*/cbmc.json'%prop)):
             n=0
             for r in x['result']:
                 n+=1
+                if r['status']=='UNKNOWN':
+                    unk=locals().get('unk',0)+1
+                    continue
                 if r['status']!='SUCCESS':
                     loc=r.get('sourceLocation',{})
                     print('  ',r['status'],r['property'],'|',r['description'][:150],'|',os.path.basename(loc.get('file','')),loc.get('line'))
